@@ -43,7 +43,7 @@ def run(ctx, prop):
     ctx.coverage.update({k: v for k, v in summ.items() if isinstance(v, int)})
     if prop == "C08":   # its anchors include the loop of the encode command (spec/cli/CmdLoop.tla)
         from . import rloop
-        rloop.run_cmd_part(ctx, vh)
+        rloop.run_cmd_part(ctx, vh, prove=True)
     if prop == "C07":
         ctx.coverage.update({"evaluations": summ["records"], "distinct_nontrivial": summ["records"],
                              "rule": "one evaluation = one random result (full integer ranges, ns timestamps 1970-2198, texts with quotes/commas/"
